@@ -1,77 +1,606 @@
-"""C04 — NNX transforms keep reference semantics (first version: jit/remat on a
-small family of edit programs; extended later, DESIGN §4 C04)."""
+"""C04 — NNX transforms keep Python reference semantics (DESIGN §4 C04).
+
+Functions are *edit programs* (sequences of ops from mc/models/c04_edits.py)
+applied to argument tuples drawn from a family of base graphs.  Each program
+is wrapped once per transform (`nnx.jit`, `nnx.remat`,
+`nnx.cached_partial(nnx.jit(f), obj)`, and for value-only programs `nnx.cond`,
+`nnx.switch`, `nnx.while_loop`, `nnx.fori_loop`) and driven through call
+histories: the *same* transformed function is called up to 3 times, with a
+between-call action (nothing / value change / static change / new attribute /
+structurally different graph) applied to the caller's objects in between, so
+trace-cache hits and misses both occur (a Python counter in the body records
+traces).  One transformed function is shared by all graphs and histories of a
+program: sound, because the oracle never looks at the cache — it is the same
+Python body run eagerly on a structurally identical fresh copy after the same
+history — and it makes the cache state richer (hits on structures first seen
+with *other* objects).
+
+Compared after every call: (1) return value; (2) canonical form of all
+argument graphs; (3) the labelled canonical form (every pre-existing node /
+Variable of the caller sits where the eager run leaves it, new objects are new,
+aliasing holds between the caller's own objects); (4) loops vs the Python
+loop; (5) aliased arguments; (6) control flow + structural edit must raise or
+agree with eager; cached_partial: a net structure change of the cached node
+must raise ValueError, anything else must agree with eager run on the
+documented clone model; (7) follows from (1)-(3) on cache hits.
+"""
 from __future__ import annotations
 
+import os
+
+import numpy as np
+
 from mc.engine import core
+from mc.models import c04_edits as E
 
 PROPERTY = 'C04'
 LEVEL = 'model_checking'
-RULE = 'edit programs x transforms vs eager execution on a fresh copy'
-ASSUMPTIONS = []
+RULE = ('edit programs = all sequences up to the tier length over the op alphabet '
+        '{value update, static set, add Variable, delete, rebind to a node/Variable of any '
+        'argument, new sub-object, swap, self-reference} x base argument graphs {one, cyclic, '
+        'two disjoint, same object twice, shared sub-node, shared Variable, object + its bare '
+        'Variable, ...} x transform x every call history (between-call actions nothing / value '
+        '/ static / new attribute / different graph); a state is (canonical structure of the '
+        'argument graphs after the call incl. identity partition, set of argument structures '
+        'the transformed function has been called with); a transition is one transformed call '
+        'compared with the eager run; a history is non-trivial when the eager program changes '
+        'the canonical form of the arguments (values or structure) in at least one call; '
+        'distinct = distinct (transform, program, family, history)')
+ASSUMPTIONS = [
+  'programs are those expressible in the op alphabet; data are integer-valued float32 scalars',
+  'effects are observed from the argument roots and the returned value: objects a program '
+  'detaches from every argument are not observed',
+  'Variable metadata edits are not in the alphabet (nnx.jit does not propagate them)',
+  'cached_partial is compared with eager execution on the documented clone model (cached '
+  'nodes are clones that share the Variables); after an expected error nothing is asserted '
+  'about the state',
+  'when the eager program is inapplicable to a graph (missing attribute) the case is skipped',
+  'a retrace on a structure already seen is not a violation (only results are compared)',
+]
 
-EDITS = ['inc', 'add_var', 'del_attr', 'static']
-TRANSFORMS = ['jit', 'remat']
+ACTIONS = ('nop', 'val', 'static', 'attr', 'graph')
+MAX_VIOL_PER_UNIT = 12
+
+
+def bounds(tier):
+  q = tier == 'quick'
+  return dict(
+    program_length=2 if q else 3,
+    alphabet=list(E.ALPHA_QUICK if q else E.ALPHA_FULL),
+    alphabet_len3=None if q else list(E.ALPHA_QUICK),
+    families=list(E.families(tier)),
+    transforms=['jit', 'remat', 'cached_partial', 'cond', 'switch', 'while_loop', 'fori_loop'],
+    calls=2 if q else 3,
+    between_actions=list(ACTIONS),
+    histories_len3_programs=None if q else ['nop', 'graph'],
+    loop_trip_counts=[0, 1, 2, 3], cond_predicates=[True, False], switch_indices=[0, 1, 2],
+    value_program_length_control_flow=2 if q else 3,
+    structural_programs_in_control_flow=('one structural op, optionally preceded or followed '
+                                         'by one value op') if q else 'all of length <= 2',
+  )
+
+
+# ---------------------------------------------------------------------------
+# units
+
+
+def _rot(xs, seed):
+  xs = list(xs)
+  if not xs:
+    return xs
+  k = seed % len(xs)
+  return xs[k:] + xs[:k]
+
+
+def _chunks(xs, n):
+  return [xs[i:i + n] for i in range(0, len(xs), n)]
 
 
 def units(tier, seed):
-  return [dict(edits=[e1, e2], t=t) for t in TRANSFORMS for e1 in EDITS for e2 in EDITS]
+  q = tier == 'quick'
+  groups = []
+
+  def add(kind, progs, n, **kw):
+    groups.append([dict(kind=kind, progs=[list(p) for p in ch], **kw)
+                   for ch in _chunks(progs, n)])
+
+  if q:
+    progs = _rot(E.programs(E.ALPHA_QUICK, 2), seed)
+    vprogs = _rot(E.programs(E.VALUE_OPS, 2), seed)
+    # clause 6 in quick: one structural op, optionally preceded or followed by one value op
+    add('cf6', [p for p in progs if sum(op not in E.VALUE_OPS for op in p) == 1], 4)
+    for T, n in (('jit', 2), ('cp', 4), ('remat', 8)):
+      add('hist', progs, n, t=T, hs='h2')
+    for T in ('cond', 'switch', 'while', 'fori'):
+      add('cf', vprogs, 2, t=T)
+  else:
+    progs2 = _rot(E.programs(E.ALPHA_FULL, 2), seed)
+    progs3 = _rot([p for p in E.programs(E.ALPHA_QUICK, 3) if len(p) == 3], seed)
+    vprogs = _rot(E.programs(E.VALUE_OPS, 3), seed)
+    for T in ('cond', 'switch', 'while', 'fori'):
+      add('cf', vprogs, 2, t=T)
+    add('cf6', [p for p in progs2 if not E.is_value_only(p)], 10)
+    for T, n in (('jit', 6), ('cp', 10), ('remat', 10)):
+      add('hist', progs2, n, t=T, hs='h3')
+    for T, n in (('jit', 30), ('cp', 50), ('remat', 100)):
+      add('hist', progs3, n, t=T, hs='h2s')
+  # interleave the groups (every kind is reached early; deterministic)
+  us = []
+  for i in range(max(len(g) for g in groups)):
+    us.extend(g[i] for g in groups if i < len(g))
+  return us
 
 
-def _mk():
-  import jax.numpy as jnp
-  from flax import nnx
-
-  class M(nnx.Module):
-    def __init__(self):
-      self.v = nnx.Param(jnp.ones(()))
-      self.w = nnx.BatchStat(jnp.zeros(()))
-      self.s = 1
-  return M()
+def histories(hs):
+  if hs == 'h2':
+    return [(a,) for a in ACTIONS]
+  if hs == 'h2s':
+    return [('nop',), ('graph',)]
+  if hs == 'h3':
+    return [(a, b) for a in ACTIONS for b in ACTIONS]
+  raise KeyError(hs)
 
 
-def _apply(edits, m):
-  import jax.numpy as jnp
-  from flax import nnx
-  for e in edits:
-    if e == 'inc':
-      m.v.value = m.v.value + 1
-    elif e == 'add_var':
-      m.n = nnx.Param(jnp.full((), 5.0))
-    elif e == 'del_attr':
-      if hasattr(m, 'w'):
-        del m.w
-    elif e == 'static':
-      m.s = m.s + 1
-  return m.v.value * 2
+def setup_worker():
+  E.lib()
+
+
+# ---------------------------------------------------------------------------
+# helpers
+
+
+def _tier():
+  return os.environ.get('VERIF_TIER', 'quick')
+
+
+def _seed():
+  return int(os.environ.get('VERIF_SEED', '0') or 0)
+
+
+def _arr(x):
+  a = np.asarray(x)
+  return [str(a.dtype), list(a.shape), a.tolist()]
+
+
+def _ptxt(prog):
+  return '+'.join(prog) if prog else 'id'
+
+
+class _Ctx:
+  """Per-unit bookkeeping."""
+
+  def __init__(self, res):
+    self.res = res
+    self.states = set()
+    self.nviol = 0
+
+  def violation(self, clause, case, what, observed=None, expected=None):
+    self.nviol += 1
+    if self.nviol > MAX_VIOL_PER_UNIT:
+      return
+    key = '|'.join([clause, case['t'], _ptxt(case['prog']), case['fam'],
+                    '>'.join(str(h) for h in case['hist']), f"call{case['call']}"])
+    core.violation(self.res, key, what, case, observed=observed, expected=expected)
+
+
+def _between(name, args):
+  """A between-call action applied by the *caller* (outside any transform)."""
+  L = E.lib()
+  if name == 'nop':
+    return
+  if name == 'val':
+    v = E.first_variable(args)
+    if v is not None:
+      v.value = v.value + 10
+    return
+  x = args[0]
+  if name == 'static':
+    s = vars(x).get('s')
+    x.s = (s if isinstance(s, int) else 0) + 10
+  elif name == 'attr':
+    x.extra = L.nnx.Param(L.jnp.float32(50.))
+  else:
+    raise KeyError(name)
+
+
+_CLASS = {}
+
+
+def _classify(prog, fam):
+  """What one eager application of `prog` does to a fresh graph of the family:
+  'inapplicable' | 'structure' | 'values' | 'none'.  Structure is compared with
+  identity labels: exchanging two look-alike sub-nodes is a structural edit."""
+  key = (tuple(prog), fam)
+  if key not in _CLASS:
+    args = E.build(fam, _seed())
+    pre = E.walk(args)
+    labels = E.label_map(pre)
+    b, bs = E.canon(args), E.canon(args, labels, values=False)
+    try:
+      E.apply_prog(prog, args)
+      _CLASS[key] = _change_kind(b, E.canon(args), bs, E.canon(args, labels, values=False))
+    except E.Inapplicable:
+      _CLASS[key] = 'inapplicable'
+  return _CLASS[key]
+
+
+def _change_kind(before, after, before_s, after_s):
+  if before_s != after_s:
+    return 'structure'
+  if before != after:
+    return 'values'
+  return 'none'
+
+
+def _compare(ctx, case, got_ret, exp_ret, iroots, oroots, labels_i, labels_o):
+  """Clauses (1)-(3).  Returns True when everything agrees."""
+  if got_ret != exp_ret:
+    ctx.violation('ret', case, 'returned value differs from the eager run (clause 1)',
+                  observed=got_ret, expected=exp_ret)
+    return False
+  ci, co = E.canon(iroots, labels_i), E.canon(oroots, labels_o)
+  if ci == co:
+    return True
+  ui, uo = E.canon(iroots), E.canon(oroots)
+  if ui != uo:
+    ctx.violation('state', case, 'canonical form of the argument graphs after the call '
+                  'differs from the eager run (clause 2: types / statics / Variable values / '
+                  'metadata / aliasing)', observed=ui, expected=uo)
+  else:
+    ctx.violation('identity', case, "the caller's own objects do not carry the change "
+                  '(clause 3: a pre-existing node / Variable was replaced by a copy, or a '
+                  'new object is not new)', observed=ci, expected=co)
+  return False
+
+
+# ---------------------------------------------------------------------------
+# jit / remat / cached_partial call histories
+
+
+def _run_hist_prog(ctx, T, prog, hs):
+  L = E.lib()
+  res = ctx.res
+  tier, seed = _tier(), _seed()
+  counter, ocounter = [0], [0]
+  body = E.make_body(prog, counter, True)
+  obody = E.make_body(prog, ocounter, True)
+  F = L.nnx.remat(body) if T == 'remat' else L.nnx.jit(body)
+  seen = set()
+  sampled = False
+  for fam in E.families(tier):
+    for hist in histories(hs):
+      if T == 'cp' and 'graph' in hist and fam in E.ARITY1:
+        core.outcome(res, 'cp|graph-action-n/a-for-one-argument')
+        continue
+      iargs, oargs = E.build(fam, seed), E.build(fam, seed)
+      curfam = fam
+      if T == 'cp':
+        call = L.nnx.cached_partial(F, iargs[0])
+        oclone = E.clone_nodes(oargs[0])
+      else:
+        call = oclone = None
+      changed_any = False
+      ended = 'done'
+      for k in range(len(hist) + 1):
+        case = dict(t=T, prog=list(prog), fam=fam, hist=list(hist[:k]), call=k + 1)
+        if k > 0:
+          act = hist[k - 1]
+          if act == 'graph':
+            curfam = E.partner(curfam, tier)
+            if T == 'cp':
+              try:
+                oargs = (oargs[0], E.derive(curfam, oargs[0], seed))
+              except E.Inapplicable:  # the program deleted what the family shares
+                core.outcome(res, 'cp|graph-action-inapplicable')
+                ended = 'inapplicable'
+                break
+              iargs = (iargs[0], E.derive(curfam, iargs[0], seed))
+            else:
+              iargs, oargs = E.build(curfam, seed), E.build(curfam, seed)
+          else:
+            _between(act, oargs)
+            try:
+              _between(act, iargs)
+            except Exception as e:  # the caller's objects must stay usable eagerly
+              ctx.violation('unusable', case, "mutating the caller's objects after a "
+                            f'transformed call raised {type(e).__name__}: {str(e)[:200]}')
+              ended = 'violation'
+              break
+        # ---- one transition ------------------------------------------------
+        pre_i, pre_o = E.walk(iargs), E.walk(oargs)
+        labels_i, labels_o = E.label_map(pre_i), E.label_map(pre_o)
+        oeff = oargs if T != 'cp' else (oclone,) + tuple(oargs[1:])
+        before = E.canon(oeff)
+        before_s = E.canon(oeff, labels_o, values=False)
+        skey = core.h(E.canon(oeff, values=False))
+        if T == 'cp':
+          clone_pre = E.walk([oclone])
+          clone_sig = E.canon([oclone], E.label_map(clone_pre), values=False)
+        try:
+          exp = obody(*oeff)
+        except E.Inapplicable:
+          core.outcome(res, f'{T}|program-inapplicable-to-graph')
+          ended = 'inapplicable'
+          break
+        after = E.canon(oeff)
+        after_s = E.canon(oeff, labels_o, values=False)
+        kind = _change_kind(before, after, before_s, after_s)
+        changed_any = changed_any or kind != 'none'
+        expect_error = False
+        if T == 'cp':
+          expect_error = E.canon([oclone], E.label_map(clone_pre), values=False) != clone_sig
+        n0 = counter[0]
+        res['evals'] += 1
+        res['transitions'] += 1
+        err = got = None
+        try:
+          got = call(*iargs[1:]) if T == 'cp' else F(*iargs)
+        except Exception as e:  # the call under test: any exception is judged below
+          err = e
+        traced = counter[0] > n0
+        hm = ('miss' if traced else 'hit') + ('' if traced != (skey in seen) else '*')
+        seen.add(skey)
+        if expect_error:
+          if isinstance(err, ValueError):
+            core.outcome(res, f'cp|{hm}|{kind}|structure-change-rejected')
+            ended = 'rejected'
+          elif err is None:
+            ctx.violation('cp-accepts', case, 'cached_partial: the final structure of the '
+                          'cached node differs from its structure at caching time but the '
+                          'call returned instead of raising (clause 6)')
+            ended = 'violation'
+          else:
+            ctx.violation('cp-error-type', case, 'cached_partial: structure change raised '
+                          f'{type(err).__name__} instead of the documented ValueError: '
+                          f'{str(err)[:200]}')
+            ended = 'violation'
+          break
+        if err is not None:
+          ctx.violation('raises', case, f'transformed call raised {type(err).__name__}: '
+                        f'{str(err)[:300]} where the eager run succeeds')
+          ended = 'violation'
+          break
+        if not (isinstance(got, tuple) and len(got) == 3):
+          ctx.violation('ret', case, 'returned value has the wrong shape', observed=repr(got))
+          ended = 'violation'
+          break
+        ok = _compare(ctx, case, [_arr(got[0]), _arr(got[1]), got[2] is not None],
+                      [_arr(exp[0]), _arr(exp[1]), exp[2] is not None],
+                      list(iargs) + [got[2]], list(oargs) + [exp[2]], labels_i, labels_o)
+        if not ok:
+          ended = 'violation'
+          break
+        core.outcome(res, f'{T}|{hm}|{kind}')
+        ctx.states.add(core.h([T, prog, E.canon(list(iargs), values=False), sorted(seen)]))
+        del pre_i, pre_o
+      if changed_any and ended != 'violation':
+        res['nontrivial'].append(core.h([T, prog, fam, hist]))
+      if not sampled and ended == 'done' and changed_any and len(hist) and fam != 'one':
+        res['samples'].append(dict(transform=T, program=list(prog), family=fam,
+                                   history=list(hist), traces=counter[0],
+                                   final_args=E.canon(list(iargs))))
+        sampled = True
+
+
+# ---------------------------------------------------------------------------
+# control flow
+
+
+_Q0, _Q1 = ('mov',), ('inc', 'inc')
+
+
+def _cf_histories(T, tier):
+  q = tier == 'quick'
+  if T == 'cond':
+    return [(True, False), (False, True)] if q else \
+      [(a, b) for a in (True, False) for b in (True, False)]
+  if T == 'switch':
+    return [(0, 1), (2, 0), (1, 2)] if q else [(a, b) for a in range(3) for b in range(3)]
+  return [(0, 2), (1, 3), (3, 0)] if q else [(a, b) for a in range(4) for b in range(4)]
+
+
+def _cf_call(T, param, bodies, prog_bodies, args):
+  """Run one control-flow transform; returns (ret-as-json, output roots)."""
+  L = E.lib()
+  jnp, nnx = L.jnp, L.nnx
+  if T == 'cond':
+    out = nnx.cond(jnp.asarray(param), bodies[0], bodies[1], *args)
+    return [_arr(out[0]), _arr(out[1])], []
+  if T == 'switch':
+    out = nnx.switch(jnp.int32(param), list(bodies), *args)
+    return [_arr(out[0]), _arr(out[1])], []
+  prog, counter = prog_bodies
+  if T == 'while':
+    def wbody(val):
+      a, acc, i, n = val
+      counter[0] += 1
+      E.apply_prog(prog, a)
+      return a, E.fold(acc, E.readout(a)), i + 1, n
+    out = nnx.while_loop(lambda val: val[2] < val[3], wbody,
+                         (tuple(args), jnp.float32(0.), jnp.int32(0), jnp.int32(param)))
+    return [_arr(out[1]), int(out[2])], list(out[0])
+  if T == 'fori':
+    def fbody(i, val):
+      a, acc = val
+      counter[0] += 1
+      E.apply_prog(prog, a)
+      return a, E.fold(acc, E.readout(a)) + i
+    out = nnx.fori_loop(0, int(param), fbody, (tuple(args), jnp.float32(0.)))
+    return [_arr(out[1])], list(out[0])
+  raise KeyError(T)
+
+
+def _cf_eager(T, param, obodies, prog, args):
+  L = E.lib()
+  jnp = L.jnp
+  if T == 'cond':
+    out = (obodies[0] if param else obodies[1])(*args)
+    return [_arr(out[0]), _arr(out[1])], []
+  if T == 'switch':
+    out = obodies[param](*args)
+    return [_arr(out[0]), _arr(out[1])], []
+  acc = jnp.float32(0.)
+  for i in range(param):  # (4) the unrolled Python loop
+    E.apply_prog(prog, args)
+    acc = E.fold(acc, E.readout(args))
+    if T == 'fori':
+      acc = acc + i
+  if T == 'while':
+    return [_arr(acc), int(param)], list(args)
+  return [_arr(acc)], list(args)
+
+
+def _branches(T, prog, qs, counter):
+  """Branch bodies for cond / switch: the program first, then partner programs."""
+  ps = [prog] + list(qs)
+  n = 2 if T == 'cond' else 3
+  return [E.make_body(p, counter, False) for p in ps[:n]]
+
+
+def _run_cf_prog(ctx, T, prog):
+  res = ctx.res
+  tier, seed = _tier(), _seed()
+  if T == 'cond':
+    qsets = [[_Q0]] if tier == 'quick' else [[q] for q in E.programs(E.VALUE_OPS, 1)]
+  elif T == 'switch':
+    qsets = [[_Q0, _Q1]]
+  else:
+    qsets = [[]]
+  sampled = False
+  for fam in E.families(tier):
+    for qs in qsets:
+      if any(_classify(p, fam) == 'inapplicable' for p in [prog] + list(qs)):
+        core.outcome(res, f'{T}|program-inapplicable-to-graph')
+        continue
+      for hist in _cf_histories(T, tier):
+        counter, ocounter = [0], [0]
+        bodies = _branches(T, prog, qs, counter)
+        obodies = _branches(T, prog, qs, ocounter)
+        iargs, oargs = E.build(fam, seed), E.build(fam, seed)
+        changed_any = False
+        ended = 'done'
+        for k, param in enumerate(hist):
+          case = dict(t=T, prog=list(prog), fam=fam, hist=[str(h) for h in hist[:k + 1]],
+                      call=k + 1, partners=[list(q) for q in qs])
+          pre_i, pre_o = E.walk(iargs), E.walk(oargs)
+          labels_i, labels_o = E.label_map(pre_i), E.label_map(pre_o)
+          before = E.canon(oargs)
+          try:
+            exp_ret, exp_roots = _cf_eager(T, param, obodies, prog, oargs)
+          except E.Inapplicable:
+            core.outcome(res, f'{T}|program-inapplicable-to-graph')
+            ended = 'inapplicable'
+            break
+          changed = E.canon(oargs) != before
+          changed_any = changed_any or changed
+          res['evals'] += 1
+          res['transitions'] += 1
+          try:
+            got_ret, got_roots = _cf_call(T, param, bodies, (prog, counter), iargs)
+          except Exception as e:  # the call under test
+            ctx.violation('raises', case, f'nnx.{T} raised {type(e).__name__}: '
+                          f'{str(e)[:300]} where the eager run succeeds')
+            ended = 'violation'
+            break
+          ok = _compare(ctx, case, got_ret, exp_ret, list(iargs) + got_roots,
+                        list(oargs) + exp_roots, labels_i, labels_o)
+          if not ok:
+            ended = 'violation'
+            break
+          core.outcome(res, f"{T}|{param}|{'values' if changed else 'none'}")
+          ctx.states.add(core.h([T, prog, qs, E.canon(list(iargs), values=False), k]))
+          del pre_i, pre_o
+        if changed_any and ended != 'violation':
+          res['nontrivial'].append(core.h([T, prog, fam, qs, hist]))
+        if not sampled and ended == 'done' and changed_any and fam == 'same':
+          res['samples'].append(dict(transform=T, program=list(prog), family=fam,
+                                     history=[str(h) for h in hist],
+                                     partners=[list(q) for q in qs],
+                                     final_args=E.canon(list(iargs))))
+          sampled = True
+
+
+def _run_cf6_prog(ctx, prog):
+  """Clause 6: a structural edit inside control flow raises, or agrees with eager."""
+  res = ctx.res
+  tier, seed = _tier(), _seed()
+  variants = [('cond', True, [_Q0]), ('cond', False, [prog]), ('switch', 2, [prog, prog]),
+              ('while', 2, []), ('fori', 1, [])]
+  if tier != 'quick':
+    variants += [('cond', True, [prog]), ('switch', 0, [_Q0, _Q1]), ('while', 0, []),
+                 ('fori', 0, [])]
+  for fam in E.families(tier):
+    for T, param, qs in variants:
+      case = dict(t=T, prog=list(prog), fam=fam, hist=[str(param)], call=1,
+                  partners=[list(q) for q in qs])
+      kinds = [_classify(p, fam) for p in [prog] + list(qs)]
+      if 'inapplicable' in kinds:
+        core.outcome(res, f'{T}+structural|program-inapplicable-to-graph')
+        continue
+      structural = 'structure' in kinds
+      counter, ocounter = [0], [0]
+      bodies = _branches(T, prog, qs, counter) if T in ('cond', 'switch') else None
+      obodies = _branches(T, prog, qs, ocounter) if T in ('cond', 'switch') else None
+      iargs, oargs = E.build(fam, seed), E.build(fam, seed)
+      pre_i, pre_o = E.walk(iargs), E.walk(oargs)
+      labels_i, labels_o = E.label_map(pre_i), E.label_map(pre_o)
+      try:
+        exp_ret, exp_roots = _cf_eager(T, param, obodies, prog, oargs)
+      except E.Inapplicable:  # e.g. the second loop iteration no longer applies
+        core.outcome(res, f'{T}+structural|program-inapplicable-to-graph')
+        continue
+      res['evals'] += 1
+      res['transitions'] += 1
+      try:
+        got_ret, got_roots = _cf_call(T, param, bodies, (prog, counter), iargs)
+      except Exception as e:  # the call under test: raising is the permitted outcome
+        if not structural:
+          ctx.violation('raises', case, f'nnx.{T} raised {type(e).__name__}: {str(e)[:300]} '
+                        'although no body changes the structure')
+        else:
+          core.outcome(res, f'{T}+structural|raises-{type(e).__name__}')
+          res['nontrivial'].append(core.h(['cf6', T, param, prog, fam, qs]))
+        continue
+      ok = _compare(ctx, dict(case, t=T + '+structural'), got_ret, exp_ret,
+                    list(iargs) + got_roots, list(oargs) + exp_roots, labels_i, labels_o)
+      if ok:
+        core.outcome(res, f"{T}+structural|{'propagates' if structural else 'no-net-change'}")
+        ctx.states.add(core.h(['cf6', T, param, prog, qs, E.canon(list(iargs), values=False)]))
+        if structural:
+          res['nontrivial'].append(core.h(['cf6', T, param, prog, fam, qs]))
+      del pre_i, pre_o
+
+
+# ---------------------------------------------------------------------------
+
+
+def _drop_caches():
+  """Every program compiles its own executables; without this a worker grows
+  without bound (jit / eager-primitive caches hold every compiled program)."""
+  import gc
+  E.lib().jax.clear_caches()
+  gc.collect()
+
+
+_NPROG = [0]
 
 
 def run_unit(unit):
-  import numpy as np
-  from flax import nnx
   res = core.new_result()
-  edits = unit['edits']
-  T = dict(jit=nnx.jit, remat=nnx.remat)[unit['t']]
-  a, b = _mk(), _mk()
-  exp = _apply(edits, a)
-  res['evals'] += 1
-  res['transitions'] += 1
-  res['states'] += 1
-  key = f"{unit['t']}|{edits}"
-  try:
-    got = T(lambda m: _apply(edits, m))(b)
-  except Exception as e:  # noqa
-    core.violation(res, 'raises|' + key,
-                   f"nnx.{unit['t']} raised {type(e).__name__}: {str(e)[:200]} where eager "
-                   'execution succeeds', unit)
-    return res
-  sa, sb = nnx.state(a), nnx.state(b)
-  if repr(nnx.graphdef(a)) != repr(nnx.graphdef(b)) or \
-     [np.asarray(x).tolist() for x in __import__('jax').tree.leaves(sa)] != \
-     [np.asarray(x).tolist() for x in __import__('jax').tree.leaves(sb)] or \
-     float(exp) != float(got):
-    core.violation(res, 'differs|' + key, 'object state after the transformed call differs '
-                   'from eager', unit)
-  res['nontrivial'].append(core.h(key))
-  core.outcome(res, 'ok')
-  res['samples'].append(unit)
+  ctx = _Ctx(res)
+  for p in unit['progs']:
+    prog = tuple(p)
+    _NPROG[0] += 1
+    if _NPROG[0] % 12 == 0:  # per worker process, across units
+      _drop_caches()
+    if unit['kind'] == 'hist':
+      _run_hist_prog(ctx, unit['t'], prog, unit['hs'])
+    elif unit['kind'] == 'cf':
+      _run_cf_prog(ctx, unit['t'], prog)
+    elif unit['kind'] == 'cf6':
+      _run_cf6_prog(ctx, prog)
+    else:
+      raise KeyError(unit['kind'])
+  res['states'] = len(ctx.states)
+  res['extra']['violating_transitions'] = ctx.nviol
   return res
